@@ -1051,11 +1051,12 @@ func (c *Conn) readTopicMetadatav1(brokers map[int32]Broker, topicMetadata []top
 		for _, p := range t.Partitions {
 			partitions = append(partitions, Partition{
 				Topic:           t.TopicName,
-				Leader:          brokers[p.Leader],
+				Leader:          makeBrokers(brokers, p.Leader)[0],
 				Replicas:        makeBrokers(brokers, p.Replicas...),
 				Isr:             makeBrokers(brokers, p.Isr...),
 				ID:              int(p.PartitionID),
 				OfflineReplicas: []Broker{},
+				Error:           makeError(p.PartitionErrorCode, ""),
 			})
 		}
 	}
@@ -1073,11 +1074,12 @@ func (c *Conn) readTopicMetadatav6(brokers map[int32]Broker, topicMetadata []top
 		for _, p := range t.Partitions {
 			partitions = append(partitions, Partition{
 				Topic:           t.TopicName,
-				Leader:          brokers[p.Leader],
+				Leader:          makeBrokers(brokers, p.Leader)[0],
 				Replicas:        makeBrokers(brokers, p.Replicas...),
 				Isr:             makeBrokers(brokers, p.Isr...),
 				ID:              int(p.PartitionID),
 				OfflineReplicas: makeBrokers(brokers, p.OfflineReplicas...),
+				Error:           makeError(p.PartitionErrorCode, ""),
 			})
 		}
 	}
